@@ -29,6 +29,17 @@ Definition lead_len (b : Z) : Z :=
 
 Definition is_cont (b : Z) : bool := (128 <=? b) && (b <? 192).
 
+(* the bytes that start the encoding of some code point: 00..7F, C2..DF, E0..EF, F0..F4.  The others (80..BF continuation
+   bytes, C0 C1 and F5..FF, which occur nowhere in UTF-8) start no sequence: the property text says nothing about what a
+   sequence-length function answers on them, so the reference leaves that open (the check prints `?` there) *)
+Definition starts_encoding (b : Z) : bool := ((0 <=? b) && (b <? 128)) || ((194 <=? b) && (b <=? 244)).
+(* a code point whose encoding starts with such a byte *)
+Definition lead_witness (b : Z) : Z :=
+  if b <? 128 then b
+  else if b <? 224 then (b - 192) * 64
+  else if b <? 240 then Z.max 2048 ((b - 224) * 4096)
+  else Z.max 65536 ((b - 240) * 262144).
+
 (* layout validity: every sequence is a lead byte followed by exactly the announced number of
    continuation bytes (no overlong / surrogate / range exclusion - the validator in the code does
    not make them and the property text does not ask for them) *)
@@ -103,6 +114,25 @@ Fixpoint utf8_text_fuel (fuel : nat) (bs : list Z) : bool :=
     end
   end.
 Definition utf8_text (bs : list Z) : bool := utf8_text_fuel (S (length bs)) bs.
+
+(* ... of encodings of Unicode scalar values: RFC 3629 excludes the surrogates D800..DFFF from UTF-8.  The property asks
+   toString/fromString to be inverse on all 1,114,112 code points (surrogates included), it does not ask a validator to
+   accept their encodings: the check demands acceptance of this stricter text only and leaves text with encoded
+   surrogates open, like overlong forms *)
+Definition is_surrogate (cp : Z) : bool := (55296 <=? cp) && (cp <=? 57343).
+Fixpoint utf8_strict_fuel (fuel : nat) (bs : list Z) : bool :=
+  match fuel with
+  | O => false
+  | S f =>
+    match bs with
+    | [] => true
+    | _ => match utf8_first bs with
+           | Some cp => negb (is_surrogate cp) && utf8_strict_fuel f (skipn (length (rfc3629 cp)) bs)
+           | None => false
+           end
+    end
+  end.
+Definition utf8_strict (bs : list Z) : bool := utf8_strict_fuel (S (length bs)) bs.
 
 (* ------------------------------------------------------------------------------------------ *)
 (* hexadecimal text, upper case                                                                *)
